@@ -49,6 +49,9 @@ let ioptlen (o:IOpt<string>) =
 let iwrap x =
   {Val=x; Tag="w"}
 
+let imkint (n:int) =
+  {Val=n; Tag="k"}
+
 """
 
 LIT = {"int": ["lit", "int"], "str": ["lit", "string"], "bool": ["lit", "bool"]}
@@ -701,3 +704,33 @@ class AstFn:
         return {"name": self.name, "ast": self.ast}
 
     text = Fn.text
+
+
+# ------------------------------------------------------------------------------------------ kernels (fixed functions)
+def _fld(x, f):
+    return ["fld", V(x), f]
+
+
+def kernels():
+    """functions around a value that IS a field of a record still to be known (a variable unified with x.F): abstract syntax only,
+    the principal types come from FoInferGen.  k19 is the designated probe of the known finding fa-class-drops-concrete."""
+    ks = []
+    def K(name, params, stmts, fin):
+        ks.append(AstFn({"name": name, "params": params, "stmts": stmts, "fin": fin}))
+    pair = lambda a, b: ["tuple", [a, b]]
+    # the accessed value and the record's type argument are the same variable: not an infinite type (defect 18), both orders
+    K("k18a", ["a", "c"], [["let", "l", ["slice", [_fld("a", "Val"), V("c")]]], ["let", "w", ["slice", [V("a"), call("iwrap", V("c"))]]]], pair(V("l"), V("w")))
+    K("k18b", ["a", "c"], [["let", "w", ["slice", [V("a"), call("iwrap", V("c"))]]], ["let", "l", ["slice", [_fld("a", "Val"), V("c")]]]], pair(V("l"), V("w")))
+    K("k18c", ["a", "c"], [["let", "l", call("eq", _fld("a", "Val"), V("c"))], ["let", "w", ["slice", [V("a"), call("iwrap", V("c"))]]]], pair(V("l"), V("w")))
+    # the variable gets its concrete type before / after the record is known
+    K("k18d", ["a", "c", "d"], [["let", "l", ["slice", [_fld("a", "Val"), V("c")]]], ["let", "w", ["slice", [V("a"), call("iwrap", V("d"))]]],
+                                ["let", "k", call("int+", V("c"), LIT["int"])]], pair(V("l"), pair(V("w"), V("k"))))
+    K("k18e", ["a", "c", "d"], [["let", "l", ["slice", [_fld("a", "Val"), V("c")]]], ["let", "k", call("int+", V("c"), LIT["int"])],
+                                ["let", "w", ["slice", [V("a"), call("iwrap", V("d"))]]]], pair(V("l"), pair(V("w"), V("k"))))
+    K("k18f", ["a", "c", "d"], [["let", "k", call("int+", V("c"), LIT["int"])], ["let", "w", ["slice", [V("a"), call("iwrap", V("d"))]]],
+                                ["let", "l", ["slice", [_fld("a", "Val"), V("c")]]]], pair(V("l"), pair(V("w"), V("k"))))
+    # known finding: the concrete type reaches the class of c (whose type is "a.Val", a unknown) only through b's type argument
+    K("k19", ["a", "b", "c"], [["let", "l1", ["slice", [_fld("a", "Val"), V("c")]]], ["let", "l2", ["slice", [V("b"), call("iwrap", V("c"))]]],
+                               ["let", "l3", ["slice", [V("b"), call("imkint", LIT["int"])]]], ["let", "l4", ["slice", [V("a"), call("iwrap", V("c"))]]]],
+      pair(pair(V("l1"), V("l2")), pair(V("l3"), V("l4"))))
+    return ks
